@@ -125,6 +125,7 @@ End Kahn.
 
 Arguments kahn {T}.
 Arguments kahn_init {T}.
+Arguments kahn_count {T}.
 Arguments kahn_start {T}.
 Arguments kahn_loop {T}.
 Arguments kahn_step {T}.
